@@ -57,7 +57,7 @@ def new_printer():
     return p
 
 
-def check_records(g, recs, expected_models):
+def check_records(g, recs, expected_models, containment_exclude=None):
     """expected_models: list of (transcript_id, gene_id, strand, exons) that must be printed"""
     tr = [r for r in recs if r.type == "transcript"]
     genes = [r for r in recs if r.type == "gene"]
@@ -81,7 +81,8 @@ def check_records(g, recs, expected_models):
         gr = [r for r in genes if r.attrs["gene_id"] == gid]
         g.check(len(gr) == 1, "the gene record of a printed transcript exists exactly once")
         if len(gr) == 1:
-            g.check(AND(gr[0].start <= t.start, t.end <= gr[0].end, gr[0].chr == t.chr), "the gene record contains its transcripts, same chromosome")
+            g.check(AND(gr[0].start <= t.start, t.end <= gr[0].end, gr[0].chr == t.chr), "the gene record contains its transcripts, same chromosome",
+                    exclude=containment_exclude)
 
 
 def sorted_by_start(ex, strand):
@@ -115,6 +116,27 @@ def h_dump_symbolic(n_models, n_exons):
         recs = parse_gtf(g, p.out_gff.getvalue())
         check_records(g, recs, expected)
     return fn
+
+
+def h_dump_two_regions(g):
+    """one gene processed in two regions of a split locus: GFFPrinter.dump is called twice with one model each (the gene record is
+    printed by the first call); the records of both calls together must still be well formed"""
+    shims.CURRENT["g"] = g if g.symbolic else None
+    p = new_printer()
+    gi = Obj(chr_id="chr1", feature_attributes={}, sources={}, empty=lambda: True, get_gene_regions=lambda: {})
+    expected = []
+    spans = []
+    for i in range(2):
+        a, b = g.int("region%d_model_start" % i, 1), g.int("region%d_model_end" % i, 1)
+        g.add(a + 10 <= b)
+        m = TranscriptModel("chr1", "+", "T%d" % i, "G0", [(a, b)], TranscriptModelType.novel_not_in_catalog)
+        call(g, p.dump, gi, [m])
+        expected.append(("T%d" % i, "G0", "+", [(a, b)]))
+        spans.append((a, b))
+    recs = parse_gtf(g, p.out_gff.getvalue())
+    # known finding: the gene line is written when the gene is first seen; a transcript of a later region that extends beyond it is not contained
+    ex = g.excl({"C03-gene-record-fixed-by-first-region": OR(spans[1][0] < spans[0][0], spans[1][1] > spans[0][1])})
+    check_records(g, recs, expected, containment_exclude=ex)
 
 
 def h_reference_verbatim(locus):
@@ -225,6 +247,8 @@ def instances(tier, seed):
     for nm, ne in ([(1, 2), (2, 2), (1, 3)] if q else [(1, 1), (1, 2), (2, 2), (1, 3), (2, 3), (3, 2)]):
         out.append(Instance("dump[models=%d,exons=%d]" % (nm, ne), h_dump_symbolic(nm, ne), [T + "GFFPrinter.dump", T + "validate_exons", "src.common:max_range"],
                             "%d models x %d exons, coordinates symbolic and unconstrained" % (nm, ne), weight=20 ** (nm * ne), budget_s=1800))
+    out.append(Instance("dump_two_regions", h_dump_two_regions, [T + "GFFPrinter.dump"],
+                        "one gene, two dump calls (two regions of a split locus) with one mono-exonic model each, symbolic coordinates", weight=20))
     for locus in (["skip", "antisense", "alt_ends"] if q else sorted(readfam.LOCI)):
         out.append(Instance("reference_verbatim[%s]" % locus, h_reference_verbatim(locus),
                             ["src.gene_info:TranscriptModel.from_reference_transcript", "src.gene_info:GeneInfo.from_models", T + "GFFPrinter.dump"],
